@@ -44,6 +44,8 @@ def run(ctx):
     if not ctx.replay:
         # the rewards payload through the real getBlock handlers of a loaded epoch (complete payloads and payloads missing a frame)
         obs += ctx.go_run(b, "^TestVerifC14Server$", out="obs_server.ndjson", timeout_s=900)
+        # several goroutines reassembling different intact payloads at once
+        obs += ctx.go_run(b, "^TestVerifC14Concurrent$", out="obs_conc.ndjson", timeout_s=900)
     rejected = ctx.r4_judge(["Trace_DataFrames"], "Trace_DataFrames", obs, chunk=20000, timeout_s=2400)
     for o in obs:
         ctx.count(sha([o["n"], o["fan"], o["fault"], o["checksum"], o["side"], o["via"], o["size"] > 1000]), o["n"] >= 2)
